@@ -130,7 +130,7 @@ def check_network(case, r: R):
             with r.lib('port-impedance'):
                 z1 = open_circuit_impedance(rs.lib_network(net), n1, n2)
                 z2 = open_circuit_impedance(rs.lib_network(net2), nmap[n1], nmap[n2])
-                if not tol.close(z1, z2, max(abs(complex(zx)), 1e-6 * c6.zscale(net)), 1e-6):
+                if not tol.close(z1, z2, max(abs(complex(zx)), 1e-4 * c6.zscale(net)), 1e-6):
                     r.fail('port-impedance-changed', f'{n1!r},{n2!r}: {z1} vs {z2}')
 
 
